@@ -99,21 +99,24 @@ Proof. vm_compute. split; reflexivity. Qed.
 
 From Verif.proofs Require Import OnlineEntries OnlineTables OnlineSpecLemmas OnlineInv OnlineCommit OnlineQueries.
 
+Ltac in_cases H tac :=
+  repeat (destruct H as [H|H]; [injection H as <- <-; tac|]); try destruct H.
+
 Lemma ex_hyps : genesis_ok ex_genesis /\ blocks_ok ex_blocks /\ hist_u64 ex_genesis ex_blocks.
 Proof.
   split; [|split].
   - split.
-    + unfold keys. cbn. repeat constructor; cbn; intuition discriminate.
-    + intros k a Hin Hon. cbn in Hin.
-      repeat (destruct Hin as [Hin|Hin]; [inversion Hin; subst; cbn in *; first [discriminate | repeat split; reflexivity]|]).
-      destruct Hin.
-  - unfold blocks_ok, ex_blocks. repeat constructor; unfold keys; cbn; try reflexivity; intuition discriminate.
+    + unfold keys, ex_genesis. cbv [map fst]. repeat constructor; cbv [In]; intuition discriminate.
+    + intros k a Hin Hon. unfold ex_genesis in Hin. cbv [In] in Hin.
+      in_cases Hin ltac:(first [discriminate Hon | vm_compute; repeat split; reflexivity]).
+  - unfold blocks_ok, ex_blocks, ex_b, block_ok.
+    repeat constructor; cbv [keys ob_mods ob_level ob_supply map fst In]; try (vm_compute; reflexivity); intuition discriminate.
   - apply hist_u64_of.
-    + intros k a Hin. cbn in Hin.
-      repeat (destruct Hin as [Hin|Hin]; [inversion Hin; subst; cbn; split; reflexivity|]). destruct Hin.
-    + intros b k a Hb Hin. cbn in Hb.
-      repeat (destruct Hb as [Hb|Hb]; [subst b; cbn in Hin;
-              repeat (destruct Hin as [Hin|Hin]; [inversion Hin; subst; cbn; split; reflexivity|]); destruct Hin|]).
+    + intros k a Hin. unfold ex_genesis in Hin. cbv [In] in Hin.
+      in_cases Hin ltac:(vm_compute; split; reflexivity).
+    + intros b k a Hb Hin. unfold ex_blocks, ex_b in Hb. cbv [In] in Hb.
+      repeat (destruct Hb as [Hb|Hb]; [subst b; cbv [ob_mods In] in Hin;
+              in_cases Hin ltac:(vm_compute; split; reflexivity)|]).
       destruct Hb.
 Qed.
 
@@ -129,5 +132,6 @@ Lemma ex_history_full :
                  ROk 10000120000).
 Proof.
   destruct ex_hyps as (H1 & H2 & H3). destruct ex_history as (H4 & H5).
-  repeat split; try assumption; try (cbn; discriminate). cbn. lia.
+  split; [exact H1|]. split; [exact H2|]. split; [exact H3|]. split; [vm_compute; discriminate|].
+  split; [vm_compute; discriminate|]. split; [exact H4|exact H5].
 Qed.
